@@ -60,6 +60,18 @@ def gen_cases(tier, seed, scale=1):
     counts += [rnd.randrange(1, 65537) for _ in range(6 if tier == "quick" else 200)]
     for c in counts:
         lines.append("factory %d %d %d %d" % (rnd.randrange(MAXID + 1), rnd.randrange(MAXV + 1), rnd.choice([0, 0, 5, MAXS]), c))
+    # sub-tokens as the poller holds them: real composite sources (g = Generic leaf, r = a leaf that asks the factory
+    # itself) in a real loop, through update / Reregister post action / disable / enable
+    for _ in range(40 if tier == "quick" else 1500):
+        leaves = "".join(rnd.choice("ggr") for _ in range(rnd.randrange(1, 6)))
+        ops, on = [], True
+        for _ in range(rnd.randrange(1, 6)):
+            op = rnd.choice(["update", "rereg", "disable"]) if on else "enable"
+            on = op != "disable"
+            ops.append(op)
+        lines.append("composite %s %s" % (leaves, ",".join(ops)))
+    for leaves in ("gr", "rg", "grg", "ggr", "rr"):
+        lines.append("composite %s update,rereg,disable,enable,update" % leaves)
     return lines
 
 
@@ -112,6 +124,19 @@ class Monitor:
                     return "factory tokens do not all belong to the source"
                 if n and (kv["first"] != "%d.%d.0" % (i, v) or kv["last"] != "%d.%d.%d" % (i, v, n - 1)):
                     return "factory tokens %s..%s for source %d.%d" % (kv["first"], kv["last"], i, v)
+            elif w[0] == "composite":
+                stages = o[0].split(";")
+                kv = dict(x.split("=") for x in o[1:])
+                if kv.get("ok") != "true":
+                    return "an operation on the composite source failed"
+                if kv.get("own") != "true":
+                    return "a leaf of the composite source sits in the poller under a key of another source"
+                for n, st in enumerate(stages):
+                    subs = st.split(",")
+                    live = [s for s in subs if s != "-"]
+                    if len(set(live)) != len(live):
+                        return ("after %s the leaves %s of one source sit in the poller under the sub-ids %s: not pairwise distinct"
+                                % ("the insertion" if n == 0 else "`%s`" % w[2].split(",")[n - 1], w[1], st))
         except (ValueError, IndexError, KeyError):
             return "unparsable answer %r" % out
         return None
